@@ -1,11 +1,11 @@
 package main
 
 import (
-	"go/constant"
-	"go/ast"
-	"go/types"
-	"go/token"
 	"fmt"
+	"go/ast"
+	"go/constant"
+	"go/token"
+	"go/types"
 	"sort"
 	"strings"
 
@@ -234,7 +234,9 @@ func normaliseChild(forms []string) []string {
 		// re-sort atoms for a canonical string
 		if len(parts) >= 3 {
 			atoms := parts[:len(parts)-3]
-			sort.Slice(atoms, func(a, b int) bool { return atoms[a][strings.Index(atoms[a], "*"):] < atoms[b][strings.Index(atoms[b], "*"):] })
+			sort.Slice(atoms, func(a, b int) bool {
+				return atoms[a][strings.Index(atoms[a], "*"):] < atoms[b][strings.Index(atoms[b], "*"):]
+			})
 		}
 		out = append(out, strings.Join(parts, " "))
 	}
@@ -650,7 +652,7 @@ func checkRescanEventsForwarded(c *Ctx, rule string) {
 							continue
 						}
 						n++
-						isForward := func(i ssa.Instruction) bool {
+						isForwardSel := func(i ssa.Instruction) bool {
 							sel, ok := i.(*ssa.Select)
 							if !ok {
 								return false
@@ -663,6 +665,22 @@ func checkRescanEventsForwarded(c *Ctx, rule string) {
 								}
 							}
 							return false
+						}
+						isForward := func(i ssa.Instruction) bool {
+							if isForwardSel(i) {
+								return true
+							}
+							// the hand-off extracted into a same-package helper every path of which performs it
+							call, ok := i.(*ssa.Call)
+							if !ok {
+								return false
+							}
+							g := call.Call.StaticCallee()
+							if g == nil || g.Pkg != f.Pkg || len(g.Blocks) == 0 {
+								return false
+							}
+							qq := &PathQuery{Fn: g, Barrier: isForwardSel, Target: func(i2 ssa.Instruction, _ *ssa.BasicBlock) bool { _, ok := i2.(*ssa.Return); return ok }}
+							return len(qq.From(nil)) == 0
 						}
 						q := &PathQuery{Fn: f, Barrier: isForward}
 						q.LoopExit = func(from, to *ssa.BasicBlock) bool { return to == l.Header }
